@@ -1081,3 +1081,44 @@ func BadErrChainUnguarded(d *D, files map[string][]byte) error {
 	}
 	return err
 }
+
+// ---- the previous version handed down as an argument ----------------------------------
+
+func retireArg(prev *string) error {
+	if prev == nil {
+		return nil
+	}
+	return os.RemoveAll(*prev)
+}
+
+// GoodPrevAsArgument: the helper tests and removes the pointer it is given.
+func GoodPrevAsArgument(d *D, files map[string][]byte) error {
+	v := fresh(d)
+	if err := fill(d, v, files); err != nil {
+		return err
+	}
+	if err := swap(d, v); err != nil {
+		return err
+	}
+	if err := retireArg(d.prev); err != nil {
+		return err
+	}
+	d.prev = &v
+	return nil
+}
+
+// BadPrevArgumentNil: the helper is always given nil.
+func BadPrevArgumentNil(d *D, files map[string][]byte) error {
+	v := fresh(d)
+	if err := fill(d, v, files); err != nil {
+		return err
+	}
+	if err := swap(d, v); err != nil {
+		return err
+	}
+	if err := retireArg(nil); err != nil {
+		return err
+	}
+	d.prev = &v
+	return nil
+}
